@@ -496,6 +496,14 @@ def rule_facade(ctx: Ctx):
                 if ok:
                     loop_holder = holder
     rep.floor("C05.facade", "return paths of run_async_from_sync", n_ret, 2)
+    # the coroutine's own exceptions are the caller's: the call that runs it is not covered by an exception handler of the bridge (a
+    # RuntimeError-family exception raised by a callback would be taken for "no loop"/"loop closed" and swallowed or retried)
+    for t_ in own_nodes(rs.node):
+        if isinstance(t_, ast.Try) and t_.handlers:
+            covered = [c_ for b_ in t_.body for c_ in ast.walk(b_) if isinstance(c_, ast.Call) and isinstance(c_.func, ast.Attribute)
+                       and c_.func.attr in ("run_until_complete", "run") and c_.args and show(c_.args[0]) == param]
+            rep.check(not covered, "C05.facade", rs.loc(t_), "the call that runs the coroutine is not inside a `try` of the bridge: what a callback "
+                      "raises reaches the caller as it is", rs.key, norm_stmt(covered[0]) if covered else "run_until_complete outside try bodies")
     if loop_holder is not None:
         root = loop_holder.split(".")[0]
         val = mod.assigns.get(root)
